@@ -61,7 +61,7 @@ def main():
                 os.remove(os.path.join(wt, 'tests', 'seed_demo.rs'))
                 passed, failed, _ = suite(wt)
                 res['suite_patched'] = {'passed': passed, 'failed': failed}
-                res['suite_ok'] = (passed >= 85 and failed == ['annotation::annotation_count'])
+                res['suite_ok'] = (passed >= 85 and all(f.endswith('annotation_count') for f in failed))
                 sh(['git', 'checkout', '--', '.'], cwd=wt)
         if a.check:
             env = {'VERIF_REPO': wt}
